@@ -137,6 +137,12 @@ def run(tier):
             continue
         cheats.append({"kind": "dealercheat", "proto": pr, "n": 3, "t": 1 if not (pr == "cmp-keygen" and a == "minus") else 2, "byz": b, "alt": a,
                        "sched": vlib.seed() * 5 + 300 + i})
+    # a CMP dealer whose shares are in range but not on the polynomial it committed to (about 12 s per case)
+    cheats += [{"kind": "dealercheat", "proto": pr, "n": 3, "t": 1, "byz": "abc"[(i + vlib.seed()) % 3], "alt": "wrongshares", "sched": vlib.seed() + 500 + i}
+           for i, pr in enumerate(("cmp-keygen", "cmp-refresh") if not quick else ("cmp-keygen",))]
+    # a dealer whose contribution to the key is the identity (zero constant term, forged proof of knowledge)
+    cheats += [{"kind": "dealercheat", "proto": pr, "n": 3, "t": 1, "byz": "abc"[(i + vlib.seed()) % 3], "alt": "zero", "sched": vlib.seed() + 400 + i}
+               for i, pr in enumerate(("frost-keygen", "taproot-keygen", "cmp-keygen"))]
     st = adv.run_family(rep, wd, plan(quick), PROP, vlib.seed(), {"C04"}, shards=14, extra_scen=cheats)
     states += st["states"]; trans += st["transitions"]
     rep.cov.update({"distinct_nontrivial": st["distinct"], "states": states, "transitions": trans,
